@@ -141,6 +141,11 @@ func genC13Goc(repo string, sb *strings.Builder) error {
 		{sf, "segment", "getOrLoadFamily", "getOrLoadFamilyEvents"},
 		{sf, "segment", "initDataFamily", "initDataFamilyEvents"},
 		{shf, "shard", "GetOrCrateDataFamily", "shardGetOrCrateDataFamilyEvents"},
+		// eviction (round 9): what EvictSegment does under which lock, what Close leaves behind
+		{isf, "intervalSegment", "EvictSegment", "evictSegmentEvents"},
+		{sf, "segment", "NeedEvict", "needEvictEvents"},
+		{sf, "segment", "Close", "segmentCloseEvents"},
+		{shf, "shard", "EvictSegment", "shardEvictSegmentEvents"},
 	} {
 		fd := FindFunc(f.file, f.recv, f.name)
 		if fd == nil {
